@@ -126,6 +126,31 @@ fn last_panic() -> String {
 }
 
 // ------------------------------------------------------------------------------------ zoo
+/// a host object whose `render` (= Display) fails by itself after writing `pieces` pieces
+#[derive(Debug)]
+struct FailingDisplay {
+    pieces: usize,
+    seq: bool,
+}
+
+impl minijinja::value::Object for FailingDisplay {
+    fn repr(self: &std::sync::Arc<Self>) -> minijinja::value::ObjectRepr {
+        if self.seq { minijinja::value::ObjectRepr::Seq } else { minijinja::value::ObjectRepr::Plain }
+    }
+    fn get_value(self: &std::sync::Arc<Self>, key: &Value) -> Option<Value> {
+        if self.seq { key.as_usize().filter(|i| *i < 2).map(|i| Value::from(i as i64)) } else { None }
+    }
+    fn enumerate(self: &std::sync::Arc<Self>) -> minijinja::value::Enumerator {
+        if self.seq { minijinja::value::Enumerator::Seq(2) } else { minijinja::value::Enumerator::NonEnumerable }
+    }
+    fn render(self: &std::sync::Arc<Self>, f: &mut std::fmt::Formatter<'_>) -> std::fmt::Result {
+        for i in 0..self.pieces {
+            write!(f, "<p{}>", i)?;
+        }
+        Err(std::fmt::Error)
+    }
+}
+
 /// the context every `t`/`e` case is rendered against; `which` selects small variations
 fn ctx_zoo(which: usize) -> Value {
     let nested = Value::from(Serde(serde_json::json!([[1, [2, [3, []]]], {"a": {"b": [1, {"c": null}]}}])));
@@ -154,6 +179,11 @@ fn ctx_zoo(which: usize) -> Value {
         m => Value::from(Serde(serde_json::json!({"a": 1, "b": [2], "c": {"d": "e"}}))),
         em => Value::from(Serde(serde_json::json!({}))),
         it => it, once => one_shot,
+        bad0 => Value::from_object(FailingDisplay { pieces: 0, seq: false }),
+        bad3 => Value::from_object(FailingDisplay { pieces: 3, seq: false }),
+        badseq => Value::from_object(FailingDisplay { pieces: 1, seq: true }),
+        badlist => vec![Value::from(1), Value::from_object(FailingDisplay { pieces: 1, seq: false })],
+        badmap => Value::from_iter([(Value::from_object(FailingDisplay { pieces: 1, seq: false }), Value::from_object(FailingDisplay { pieces: 0, seq: false }))]),
         name => "World", title => "T", foo => vec!["x", "y"], items => vec![1, 2, 3, 4, 5], seq => vec![3, 1, 2],
         a => 1, b => 2, c => 3, x => 42, expr => true, dict => Value::from(Serde(serde_json::json!({"k": "v"}))),
     };
@@ -1153,6 +1183,8 @@ fn transition_ok(tok: &str, pc: u32, h: usize, next: u32, h2: usize) -> bool {
     // straight-line instructions fall through; at the end of a child template that extends another
     // one the same activation continues at pc 0 of the parent's instructions
     let fall = next == pc + 1 || next == 0;
+    // a jump to the end of a child template's instructions continues at pc 0 of the parent's
+    let to = |t: i64| next as i64 == t || next == 0;
     match f[0] {
         "e" => fall && h2 == h - n(1) + n(2),
         "z" | "o" | "ll" | "dup" => fall && h2 == h + 1,
@@ -1163,13 +1195,13 @@ fn transition_ok(tok: &str, pc: u32, h: usize, next: u32, h2: usize) -> bool {
         "ul" => fall && h2 >= h - n(1) + 1,
         "call" => (fall && h2 == h - n(1) + 1) || (n(3) == 1 && n(1) == 1 && h2 == h),
         "cdyn" => (fall && h2 <= h) || (n(2) == 1 && h2 == h - 1),
-        "it" => (next == pc + 1 && h2 == h + 1) || (next as i64 == n(1) && h2 == h),
+        "it" => (next == pc + 1 && h2 == h + 1) || (to(n(1)) && h2 == h),
         // ordinary loop end, or the return of a recursion level: its leftovers are truncated away and
         // the captured output (if any) is pushed
         "plf" => (fall && h2 == h) || h2 <= h + 1,
-        "j" => next as i64 == n(1) && h2 == h,
-        "jf" => (next == pc + 1 || next as i64 == n(1)) && h2 == h - 1,
-        "jfp" | "jtp" => (next == pc + 1 && h2 == h - 1) || (next as i64 == n(1) && h2 == h),
+        "j" => to(n(1)) && h2 == h,
+        "jf" => (fall || to(n(1))) && h2 == h - 1,
+        "jfp" | "jtp" => (fall && h2 == h - 1) || (to(n(1)) && h2 == h),
         "fr" => h2 == h,
         "ret" => false,
         _ => false,
@@ -1492,7 +1524,7 @@ const ARG_ZOO: &[&str] = &[
     "''", "'a'", "'abc'", "'%s'", "'%5d'", "'{}'", "'name'", "'age'", "'tags'", "'0'", "'a.b'", "'e'", "'upper'", "'odd'",
     "none", "undefinedvar", "true", "false", "[]", "[1, 2, 3]", "[[1], [2]]", "{}", "{'a': 1}", "xs", "m", "s", "es",
     "users", "nested", "range(3)", "it", "by", "ms", "safe", "big", "small", "mixed", "[none]", "['a', 'b']", "(1, 2)",
-    "'é'", "'€é𝄞'", "' é € '", "'%(é)s'", "'{é}'", "'é.é'", "'\u{301}'", "'ß'", "'ǆ'", "'é\né'",
+    "bad0", "bad3", "badseq", "badlist", "badmap", "'é'", "'€é𝄞'", "' é € '", "'%(é)s'", "'{é}'", "'é.é'", "'\u{301}'", "'ß'", "'ǆ'", "'é\né'",
     "[nan, nan]", "[users, users]", "namespace()", "range", "echo",
 ];
 
@@ -1500,7 +1532,7 @@ const RECV_ZOO: &[&str] = &[
     "n", "undefinedvar", "t", "i0", "i1", "im", "big", "small", "ubig", "huge", "nhuge", "fl", "nan", "inf", "s", "es", "ms",
     "safe", "long", "by", "xs", "exs", "ss", "mixed", "nested", "users", "m", "em", "it", "once", "range(5)", "(1, 2)",
     "namespace(a=1)", "range", "[[1, 2], [3, 4]]", "[big, small, 0]", "['10', '9', 'a']", "{'b': 1, 'a': [2]}", "fmt",
-    "uhuge", "nzero", "fbig", "'é'", "'€é𝄞 ǆß'", "' é  €\t𝄞 '", "'%(é)s %s {é} {0}'", "'<é>&amp;€</é>'", "'é,€,𝄞'",
+    "uhuge", "nzero", "fbig", "bad0", "bad3", "badseq", "badlist", "badmap", "'é'", "'€é𝄞 ǆß'", "' é  €\t𝄞 '", "'%(é)s %s {é} {0}'", "'<é>&amp;€</é>'", "'é,€,𝄞'",
     "['é', '€']", "{'é': '€'}",
 ];
 
@@ -1518,7 +1550,7 @@ fn add_call_cases(out: &mut Vec<String>, rng: &mut Rng, label: &str, mk: &dyn Fn
     let mut n = 0usize;
     for (ri, recv) in recvs.iter().enumerate() {
         let mut arglists: Vec<String> = vec![String::new()];
-        let full = thorough || ri < 9;
+        let full = thorough || ri < 11;
         if full {
             for a in ARG_ZOO {
                 arglists.push(a.to_string());
@@ -1559,7 +1591,7 @@ fn gen_builtin_cases(out: &mut Vec<String>, rng: &mut Rng, thorough: bool) {
     let recv_n = if thorough { RECV_ZOO.len() } else { 18 };
     let pick_recvs = |rng: &mut Rng| -> Vec<&'static str> {
         // first the fixed core, then a seeded sample of the rest
-        let mut v: Vec<&'static str> = vec!["xs", "s", "n", "big", "m", "users", "exs", "es", "em"];
+        let mut v: Vec<&'static str> = vec!["xs", "s", "n", "big", "m", "users", "exs", "es", "em", "bad3", "badlist"];
         while v.len() < recv_n {
             let r = *rng.pick(RECV_ZOO);
             if !v.contains(&r) {
